@@ -142,6 +142,11 @@ def _check_kernel(item):
                     out["bad"].append((stage, "*", "totals", "totals %r for a kernel without any "
                                        "line carrying throughput" % (tp_sum,), 1.0))
             obs.append(tuple(tp_sum))
+            # the report must be producible at every stage (--fixed = uniform stage)
+            if any(i.mnemonic is not None for i in kernel) and (stage == "uniform" or len(els) == 1):
+                dg0 = drive.KernelDG(kernel, parser, M["mm"], M["sem"])
+                M["fe"].full_analysis(kernel, dg0, ignore_unknown=True)
+                M["fe"].full_analysis_dict(kernel, dg0)
         # same numbers through the machine-readable frontend output
         if any(i.mnemonic is not None for i in kernel):
             dg = drive.KernelDG(kernel, parser, M["mm"], M["sem"])
